@@ -672,6 +672,54 @@ class Violation:
     return {"assertion": self.aid, "model": self.model, "detail": self.detail}
 
 
+# ---------------------------------------------------------------------------
+# fresh interpreter state per path
+
+_LAZY_STATE = None
+
+
+def snapshot_lazy_state(prefix="ttconv"):
+  """record the module- and class-level containers of the code under test that are empty right after import, and its
+  functools caches: they are what a process accumulates while converting (memo tables, registries)"""
+  global _LAZY_STATE
+  import sys
+  import types
+  found, seen = [], set()
+
+  def consider(v):
+    if id(v) in seen:
+      return
+    if isinstance(v, (dict, list, set)) and len(v) == 0:
+      seen.add(id(v))
+      found.append(v)
+    elif callable(getattr(v, "cache_clear", None)):
+      seen.add(id(v))
+      found.append(v)
+
+  for name, mod in list(sys.modules.items()):
+    if mod is None or not (name == prefix or name.startswith(prefix + ".")):
+      continue
+    for v in list(vars(mod).values()):
+      consider(v)
+      if isinstance(v, type) and getattr(v, "__module__", None) == name:
+        for ck, cv in list(vars(v).items()):
+          if (ck.startswith("_") and ck.endswith("_")) or ck == "_field_defaults":
+            continue   # Enum / namedtuple internals
+          consider(cv.__func__ if isinstance(cv, (staticmethod, classmethod)) else cv)
+  _LAZY_STATE = found
+  return len(found)
+
+
+def fresh_interpreter_state():
+  """every explored path (and every native replay) starts from the state of a freshly started interpreter"""
+  for v in _LAZY_STATE or ():
+    if isinstance(v, (dict, list, set)):
+      if v:
+        v.clear()
+    else:
+      v.cache_clear()
+
+
 class Explorer:
   """symbolic mode"""
   symbolic = True
@@ -976,6 +1024,7 @@ class Explorer:
         self.pos = 0
         self.holes = {}
         self._fresh = 0
+        fresh_interpreter_state()
         try:
           fn(self)
         except Infeasible:
@@ -1119,6 +1168,7 @@ class Concrete:
   def note_float(self, *a): pass
 
   def run(self, fn):
+    fresh_interpreter_state()
     try:
       fn(self)
     except Infeasible:
